@@ -240,6 +240,9 @@ def _same(a, b, memo):
         return False
 
 
+PROXY = ('<tuple-proxy crossed>',)
+
+
 def leaf_diffs(a, b, out, memo=None):
     """Descend through structurally parallel parts of two values to the innermost differing sub-values."""
     from nutils import types as nt
@@ -248,6 +251,12 @@ def leaf_diffs(a, b, out, memo=None):
     if _same(a, b, memo):
         return out
     ta, tb = type(a), type(b)
+    for p, q in ((a, b), (b, a)):
+        # tuple-proxy idiom: a hashable_function vs the literal tuple it is hashed as; descend to the identifiers and remember it
+        if type(p) is nt._hashable_function_wrapper and type(q) is tuple and len(q) == 2 and type(q[0]) is str and q[0] == 'hashable_function' and id(p) in HF_IDENT:
+            out.append(PROXY)
+            leaf_diffs(HF_IDENT[id(p)][1], q[1], out, memo)
+            return out
     if ta is tb:
         if ta in (tuple, list) and len(a) == len(b):
             for x, y in zip(a, b):
@@ -319,8 +328,8 @@ def _stream_state(x):
 
 
 def stream_pair(x, y):
-    """Mechanism of C17-stream-position-unseparated: same stream type, (position, content) differ but the
-    decimal position directly followed by the content reads the same."""
+    """Out-of-scope observation (binary streams are not among the value kinds of the property): same stream type,
+    (position, content) differ but the decimal position directly followed by the content reads the same."""
     if not (isinstance(x, io.BufferedIOBase) and isinstance(y, io.BufferedIOBase) and type(x) is type(y)):
         return False
     px, cx = _stream_state(x)
@@ -343,24 +352,117 @@ def tuple_proxy_pair(x, y):
     return False
 
 
-def classify_collision(a, b):
-    """-> ('known', finding_id) | ('unclassified', reason) | ('violation', None)"""
-    leaves = leaf_diffs(a, b, [])
-    if not leaves:
-        return 'violation', None
+STREAM_NOTE = 'binary streams: str(position) runs into the content without separator'
+PROXY_NOTE = 'tuple-proxy idiom (object hashed as a tagged tuple vs that tuple)'
+
+
+def classify_leaves(leaves):
+    """leaves: innermost differing sub-value pairs (and PROXY markers) of two colliding values."""
+    pairs = [l for l in leaves if l is not PROXY]
+    proxy = len(pairs) != len(leaves)
     kinds = set()
-    for x, y in leaves:
+    for x, y in pairs:
         hx, hy = _safe_hash(x), _safe_hash(y)
         if hx is None or hx != hy:
             return 'violation', None      # the parents collide although a differing part does not: not a known mechanism
         if bare_name_pair(x, y):
-            kinds.add(('known', 'C17-type-tag-by-bare-name'))
+            kinds.add('bare')
         elif stream_pair(x, y):
-            kinds.add(('known', 'C17-stream-position-unseparated'))
+            kinds.add('stream')
         elif tuple_proxy_pair(x, y):
-            kinds.add(('unclassified', 'tuple-proxy idiom (object hashed as a tagged tuple vs that tuple)'))
+            proxy = True
         else:
             return 'violation', None
-    if len(kinds) == 1:
-        return kinds.pop()
+    if proxy:
+        return 'unclassified', PROXY_NOTE
+    if 'stream' in kinds:
+        return 'out_of_scope', STREAM_NOTE
+    if kinds == {'bare'}:
+        return 'known', 'C17-type-tag-by-bare-name'
     return 'violation', None
+
+
+def classify_collision(a, b):
+    """-> ('known', finding_id) | ('unclassified', reason) | ('out_of_scope', reason) | ('violation', None)"""
+    leaves = leaf_diffs(a, b, [])
+    if not leaves:
+        return 'violation', None
+    return classify_leaves(leaves)
+
+
+def _recipe_outline(r):
+    """(signature, child recipes) of a recipe; signature None = leaf."""
+    k = r[0]
+    if k in ('t', 'l', 'S', 'F', 'fm', 'nt'):
+        items = r[1] if k != 'nt' else r[2]
+        return (k, r[1] if k == 'nt' else None, len(items)), list(items)
+    if k in ('d', 'fd'):
+        return (k, len(r[1])), [x for kv in r[1] for x in kv]
+    if k in ('im', 'call'):
+        return (k, r[1], len(r[2]), tuple(n for n, x in r[3])), list(r[2]) + [x for n, x in r[3]]
+    if k == 'dc':
+        return (k, r[1], tuple(n for n, x in r[2])), [x for n, x in r[2]]
+    if k == 'hf':
+        return (k,), [r[1]]
+    if k == 'm':
+        return (k, r[2]), [r[1]]
+    if k in ('pk', 'AD'):
+        return (k,), [r[1]]
+    return None, []
+
+
+def recipe_leaf_pairs(ra, rb, out):
+    """Positional descent through two recipes of the same outline; appends the differing sub-recipes."""
+    if ra == rb:
+        return out
+    sa, ca = _recipe_outline(ra)
+    sb, cb = _recipe_outline(rb)
+    if sa is not None and sa == sb:
+        for x, y in zip(ca, cb):
+            recipe_leaf_pairs(x, y, out)
+        return out
+    out.append((ra, rb))
+    return out
+
+
+def classify_recipes(ra, rb, build):
+    """Fallback used when a colliding value cannot be rebuilt faithfully next to its live partner (an interned class
+    conflates the two constructions): classify from the differing sub-recipes, each built on its own."""
+    pairs = recipe_leaf_pairs(ra, rb, [])
+    leaves = []
+    for x, y in pairs:
+        try:
+            vx, vy = build(x), build(y)
+        except Exception:
+            return 'violation', None
+        leaf_diffs(vx, vy, leaves)
+    if not leaves:
+        return 'violation', None
+    return classify_leaves(leaves)
+
+
+def lookalike_only_diff(a, b):
+    """Predicate of finding C17-intern-key-python-equality: the two (argument) structures are equal except for
+    python bool/int/float scalars that compare equal but are different values (1 / 1.0 / True, 0.0 / -0.0),
+    with at least one such difference."""
+    state = {'n': 0}
+
+    def walk(x, y):
+        if type(x) in (bool, int, float) and type(y) in (bool, int, float):
+            if x != y:
+                return False
+            try:
+                if canon(x) != canon(y):
+                    state['n'] += 1
+            except Unclassified:
+                return False
+            return True
+        if type(x) is not type(y):
+            return False
+        if type(x) is tuple:
+            return len(x) == len(y) and all(walk(p, q) for p, q in zip(x, y))
+        try:
+            return canon(x) == canon(y)
+        except Unclassified:
+            return False
+    return walk(a, b) and state['n'] > 0
